@@ -539,7 +539,8 @@ class Resolver:
 
     def get_varname(self, subp_name: str, depname: str) -> T.Optional[str]:
         wrap = self.wraps.get(subp_name)
-        return wrap.provided_deps.get(depname) if wrap else None
+        # The keys of the [provide] section are stored in lower case, see find_dep_provider().
+        return wrap.provided_deps.get(depname.lower()) if wrap else None
 
     def find_program_provider(self, names: list[str | mesonlib.File]) -> T.Optional[SubProject]:
         for name in names:
